@@ -17,7 +17,7 @@ LEVEL = "exploration"
 RULE = ("(A) every (dispatcher, argument-type tuple) observed while running engines E1,E2,E4,E8,E9,E10,E12-synth (term interpretations and op "
         "dispatchers): chosen rule's signature must be <= every matching signature under an independent position-wise order; the same rule "
         "must be chosen after clearing the dispatch cache and by a dispatcher rebuilt from the same registrations in 3 shuffled orders; "
-        "(A') synthesised argument-type tuples (python / numpy scalars, arrays, tuples, lists, funsor terms in every position) for the dispatcher "
+        "every term constructed meanwhile has the precise type computed from its own arguments; (A') synthesised argument-type tuples (python / numpy scalars, arrays, tuples, lists, funsor terms in every position) for the dispatcher "
         "of every op class; (B) pool of observed + registered + synthetic parametric types (Tuple, variadic Tuple, Union, FrozenSet, Any, op classes, "
         "parametrised term types): reflexivity, transitivity (all triples via the boolean matrix), subtype soundness w.r.t. an independent "
         "membership predicate on sampled values, deep_isinstance vs that predicate. A case is one observed type tuple / one (value, type) pair; "
@@ -25,12 +25,12 @@ RULE = ("(A) every (dispatcher, argument-type tuple) observed while running engi
 ASSUMPTIONS = ["plain-class issubclass/isinstance as the base relation", "empty tuples/frozensets are excluded (deep_type of an empty collection is the bare collection type by design)"]
 MIN_NONTRIVIAL = {"quick": 1500, "thorough": 6000}
 REQUIRED_COUNTERS = ["dispatch:observed-type-tuples", "dispatch:most-specific-ok", "dispatch:cache-cleared-same", "dispatch:shuffled-registration-same",
-                     "axioms:reflexive-ok", "axioms:transitive-pairs", "membership:agree", "synth:type-tuples"]
+                     "axioms:reflexive-ok", "axioms:transitive-pairs", "membership:agree", "synth:type-tuples", "precise-type:terms-checked"]
 
 
 def plan(tier, seed):
     shards = []
-    engs = ["E1", "E2", "E4", "E8-gaussian", "E9-marginals", "E10-sampling", "E12-synth", "E3", "E6-markov", "E5-plated"]
+    engs = ["E1", "E2", "E4", "E8-gaussian", "E9-marginals", "E10-sampling", "E12-synth", "E3", "E6-markov", "E5-plated", "E1-routes", "E1-lazy"]
     for r in range(1 if tier == "quick" else 4):
         for e in engs:
             shards.append({"name": "obs-%s-%d" % (e, r), "kind": "observe", "engine": e, "n": 120 if tier == "quick" else 300, "timeout": 3000})
@@ -125,6 +125,31 @@ def run_observe(shard, res, rng):
         return orig(self, *args)
 
     registry.PartialDispatcher.partial_call = partial_call
+    # every constructed term must be an instance of the precise type computed from its own arguments (what patterns are matched against)
+    from funsor.interpretations import reflect
+    from funsor.terms import Funsor
+    from funsor.typing import get_origin
+
+    orig_reflect = reflect.interpret
+    type_problems = {}
+    checked = [0]
+
+    def reflect_interpret(cls, *args):
+        r = orig_reflect(cls, *args)
+        try:
+            if isinstance(r, Funsor):
+                want = get_origin(type(r))[tuple(map(deep_type, r._ast_values))]
+                checked[0] += 1
+                if type(r) is not want and len(type_problems) < 20:
+                    type_problems.setdefault(get_origin(type(r)).__name__, "a %s term has type %s but its arguments have types %s" % (
+                        get_origin(type(r)).__name__, repr(type(r))[:200], repr(want)[:200]))
+        except Exception as e:
+            res.count("precise-type:monitor-error:%s" % type(e).__name__)
+        return r
+
+    if not getattr(orig_reflect, "_fv_wrapped16", False):
+        reflect_interpret._fv_wrapped16 = True
+        reflect.interpret = reflect_interpret
     riders = Riders(res)
     try:
         for label, holder, thunk in engines()[shard["engine"]](rng, shard["n"]):
@@ -137,6 +162,10 @@ def run_observe(shard, res, rng):
             riders.after(None)
     finally:
         registry.PartialDispatcher.partial_call = orig
+        reflect.interpret = orig_reflect
+    res.count("precise-type:terms-checked", checked[0])
+    for name, msg in type_problems.items():
+        res.violation("typing:term-type-disagrees-with-arguments", msg)
     for disp, tset in observed.values():
         if not hasattr(disp, "funcs"):
             continue
